@@ -210,6 +210,14 @@ def build_fn(unit, file_spec, item_spec, opts, sections, log, probes=False):
             if n == 0:
                 info.lost.append("sub `%s` matched nothing" % m.group(1))
             log.hit("R8 per-function substitution `%s` => `%s`" % (m.group(1), m.group(2)), n)
+    # leading attributes kept by R1 (derive(Debug), repr) stay in front of the item
+    lead = ""
+    while True:
+        am = re.match(r"\s*#\[[^\]]*\]\s*", text)
+        if not am:
+            break
+        lead += am.group(0).strip() + "\n"
+        text = text[am.end():]
     is_fn = re.match(r"\s*(const\s+)?(unsafe\s+)?fn\b", text) is not None
     newname = None
     for o in opts:
@@ -225,7 +233,7 @@ def build_fn(unit, file_spec, item_spec, opts, sections, log, probes=False):
     if not is_fn:
         if sections:
             raise AssembleError("contract sections on a non-fn item " + item_spec)
-        return text, info, []
+        return lead + text, info, []
 
     masked = lex.mask(text)
     ob = _sig_end(masked)
@@ -450,6 +458,33 @@ def assemble(unit, template_text=None, probes=False):
         dm = re.match(r"default-first\s*(.*)$", head, re.S)
         if dm:
             default_first = dm.group(1).strip() or None
+            continue
+        em = re.match(r"enum-cast\s+(\S+)\s+(\w+)\s+(\w+)$", head)
+        if em:
+            # generate, from the extracted enum text, a function returning the declared discriminant of a
+            # `#[repr(..)]` enum (Verus does not model `enum as int` casts); cast sites are routed to it by `sub`
+            src = load_source(em.group(1))
+            try:
+                a0, b0 = src.find("enum " + em.group(2))
+            except ExtractError as e:
+                raise AssembleError("lost anchor: " + str(e))
+            etxt = src.text[a0:b0]
+            body = etxt[etxt.index("{") + 1:etxt.rindex("}")]
+            arms = []
+            for part in lex.split_top_level(body):
+                vm = re.match(r"(?:#\[[^\]]*\]\s*|///[^\n]*\n\s*)*(\w+)\s*=\s*(.+)$", part.strip(), re.S)
+                if not vm:
+                    raise AssembleError("enum-cast: variant without explicit discriminant in " + em.group(2))
+                arms.append((vm.group(1), vm.group(2).strip()))
+            fn = em.group(3)
+            en = em.group(2)
+            gen = "pub open spec fn spec_%s(s: %s) -> u64 { match s { %s } }\n" % (
+                fn, en, " ".join("%s::%s => (%s) as u64," % (en, v, x) for v, x in arms))
+            gen += "pub fn %s(s: &%s) -> (r: u64) ensures r == spec_%s(*s) { match s { %s } }\n" % (
+                fn, en, fn, " ".join("%s::%s => (%s) as u64," % (en, v, x) for v, x in arms))
+            log.hit("R10 enum discriminant function generated from the enum definition (%s)" % en)
+            out.append(gen)
+            cur_line += gen.count("\n")
             continue
         hm = re.match(r"(fn|item)\s+(\S+)\s+([^;]+?)\s*(?:;\s*(.*))?$", head)
         if not hm:
